@@ -395,9 +395,18 @@ func genC02(o *Out, rng *rand.Rand, tier string) {
 		w   []byte
 	}
 	var ring []held
+	nemit := 0
 	emit := func(d dhcpv6.DHCPv6, cls string) {
 		val := proj6(d)
 		countTypes(val, counts)
+		nemit++
+		if nemit%3 == 0 { // a message is logged before it is sent, as often as not
+			func() {
+				defer func() { recover() }()
+				_ = d.Summary()
+				_ = d.String()
+			}()
+		}
 		w, perr := enc6(d)
 		rec := map[string]any{"op": "RT6", "val": val}
 		if perr != nil {
